@@ -9,9 +9,20 @@ the documented equivalent API sequence `API().configure(...).parse(...).generate
 on a second copy of the workspace; its per-stage outcomes are the model's parameters (front-end verdict, generator failures,
 validation verdict), and its output tree / report is what the CLI's is compared with.
 
+Failing IDL inputs are not a fixed list: a stream of syntactically broken multi-file programs (`idl_stream`: a generated program
+with every declaration kind incl. properties, an `@import` and an `@extern`; every single-token deletion, every lost quote, odd and
+over-long import paths, C06's token mutations, lost punctuation, stray characters, truncation, bytes that are not UTF-8, very long
+lines / identifiers / nesting; in the root file or in the imported one; the IDL argument being a directory) goes through the
+in-process API with the steps of `Parser.parse` observed (errors recorded before the visitor runs, how the visitor ends, errors
+recorded when it ends), and a stratified selection (every internal-error class first, then one input per mutation kind x file x
+outcome class x visitor class in rotation) through the real CLI paired with the API sequence as above. The Lean `frontOf` computes
+the front end's verdict from the observed steps (any failure class of the visitor is tolerated once an error is recorded) and is
+compared with what `parse` raised.
+
 Specification on the implementation's observations (Lean op `c19.spec` = `specExit`): never a traceback; the exit status is 0
 exactly when the API sequence ran through, otherwise the documented code of its first exception (2 for a command line click
-refuses); the CLI writes the same files (paths and contents) and the same report as the API sequence.
+refuses); the first message names the file and the (line, column) of the first reported error; the CLI writes the same files
+(paths and contents, modulo the workspace directory) and the same report as the API sequence.
 
 Translator: `pydjinni.exceptions.return_codes` after loading all plug-ins -> Lean table; obligations: equal to the documented
 table, codes distinct, none collides with the traceback status 1, every exception class has the code the model uses.
@@ -38,12 +49,14 @@ THEOREMS = [_T + n for n in [
     "handler_app", "handler_list_first", "handler_usage", "exit_code_is_first_failure", "exit_zero_iff", "exitOf_no_traceback",
     "never_traceback_partial", "never_traceback_counterexample", "exitOf_filter", "eventsOf_filter", "firstRaised_exit",
     "cli_eq_api", "cli_unlisted_target_generates_nothing",
+    "front_recorded_error_reported", "front_syntax_error_exit", "front_crash_only_unrecorded",
 ]]
 LEVEL = "proof"
 TRUSTED = [
     "click's argument handling (order: group options, group callback, sub-command lookup; chained sub-commands are all looked up before "
     "any runs) is modelled from its documented behaviour and tied by the subprocess runs",
-    "front-end verdicts and generator failures are parameters of the model, taken from the in-process API run of the same workspace",
+    "generator failures, and what the front end's phases after the visitor record (resolution, rules), are parameters of the model, taken from the "
+    "in-process API run of the same workspace; the steps of Parser.parse are observed by wrapping Parser.visit",
 ]
 
 PY = "/venv/bin/python"
@@ -59,6 +72,9 @@ IDLS = {
     "imp.djinni": ('@import "nope.djinni"\nr = record { a: i32; }\n', []),
     "kw.djinni": ("r = record { class: i32; }\n", ["record"]),
 }
+
+# AST classes -> the model's declaration kinds
+KIND_OF = {"Enum": "enum", "Flags": "flags", "Record": "record", "Interface": "interface", "Function": "function", "ErrorDomain": "error"}
 
 GEN = {
     "cpp": {"out": "out/cpp"}, "java": {"out": "out/java", "package": "a.b.c"}, "jni": {"out": "out/jni", "namespace": "a::jni"},
@@ -239,13 +255,348 @@ def build_cases(ctx):
 
 
 # --------------------------------------------------------------------------------------------
+# stream of syntactically broken IDL inputs (the property quantifies over ALL failing IDL inputs)
+# --------------------------------------------------------------------------------------------
+# A valid multi-file program that contains every declaration kind is generated, then broken: token-level mutations (those of
+# C06: delete / duplicate / swap / truncate / insert / replace; every single-token deletion systematically), character-level
+# ones (a punctuation character lost, a quote lost, a stray character, truncation at any offset, bytes that are not UTF-8),
+# very long lines / identifiers / nesting, and import / extern paths that are long, odd or point at the wrong kind of thing;
+# in the root file or in the imported one. All of them go through the in-process API (cheap) with the steps of `Parser.parse`
+# observed; a stratified selection (every outcome class per mutation kind, every internal error) goes through the real CLI.
+
+_WORDS = ["alpha", "beta", "gamma", "delta", "item", "value", "count", "name", "kind", "state", "total", "index", "origin", "target"]
+_PRIMS = ["i8", "i16", "i32", "i64", "f32", "f64", "bool", "string", "binary", "date"]
+ROOT_IDL, LIB_IDL = "m.djinni", "lib.djinni"
+
+
+def _comment(r, indent="", long=None, quoted=None):
+    """documentation comment lines; now and then a very long line, now and then a quoted word"""
+    out = ""
+    for _ in range(r.choice([0, 0, 1, 1, 2]) if long is None else 1):
+        n = (r.choice([3, 6, 12]) if r.random() < 0.8 else r.choice([60, 120])) if long is None else (80 if long else 5)
+        words = [r.choice(_WORDS) for _ in range(n)]
+        if quoted or (quoted is None and long is None and r.random() < 0.15):
+            k = r.randrange(len(words))
+            words[k] = f'"{words[k]}"'
+        out += indent + "# " + " ".join(words) + "\n"
+    return out
+
+
+def rich_program(r: random.Random) -> dict:
+    """a valid program with every declaration kind (enum, flags, error domain, records with targets and deriving, named
+    function, interfaces with static / const / async methods, throws clauses and properties, nested namespaces), every type
+    form (primitives, optionals, generics, inline functions, references into the imported file), comments on every level (one
+    very long line right after the loads, a quoted word further down), an `@import` of a sibling file that itself declares
+    an interface with a property, and an `@extern`. -> {file name: text}; the root is `m.djinni`"""
+    def name(prefix):
+        return f"{prefix}_{r.choice(_WORDS)}"
+
+    def ty(depth=0, refs=()):
+        m = r.random()
+        if m < 0.45 or depth > 1:
+            t = r.choice(_PRIMS + list(refs))
+        elif m < 0.6:
+            t = f"list<{ty(depth + 1, refs)}>"
+        elif m < 0.7:
+            t = f"set<{r.choice(['i32', 'string'])}>"
+        elif m < 0.85:
+            t = f"map<{r.choice(['i32', 'string'])}, {ty(depth + 1, refs)}>"
+        else:
+            t = r.choice(_PRIMS)
+        return t + ("?" if r.random() < 0.25 else "")
+
+    lib_rec, lib_enum, lib_if = "lib_point", "lib_mode", "lib_service"
+    lib = (_comment(r) + f"{lib_enum} = enum {{ on; off; }}\n"
+           + _comment(r) + f"{lib_rec} = record {{\n{_comment(r, '    ')}    x: i32; y: {ty()};\n}}\n"
+           + f"{lib_if} = interface +cpp {{\n{_comment(r, '    ')}    property level: {ty()};\n    get() -> {lib_rec};\n}}\n")
+    e_name, f_name, err_name, fn_name = name("e"), name("f"), name("err"), name("fn")
+    recs = [f"r{i}_{w}" for i, w in enumerate(r.sample(_WORDS, r.choice([1, 2])))]
+    ifs = [f"i{i}_{w}" for i, w in enumerate(r.sample(_WORDS, r.choice([1, 2])))]
+    data = [e_name, f_name, lib_rec, lib_enum]
+    out = f'@import "{LIB_IDL}"\n@extern "ext.yaml"\n'
+    out += _comment(r, long=True, quoted=False) + f"{e_name} = enum {{\n" + "".join(
+        _comment(r, "    ") + f"    {w};\n" for w in r.sample(_WORDS, r.choice([1, 3]))) + "}\n"
+    out += _comment(r, long=False, quoted=True) + f"{f_name} = flags {{ " + " ".join(f"{w};" for w in r.sample(_WORDS, 2)) + " nothing = none; everything = all; }\n"
+    out += _comment(r) + f"{err_name} = error {{\n    plain;\n" + _comment(r, "    ") + f"    detailed(reason: string code: {r.choice(['i32', 'i64'])});\n}}\n"
+    for i, rn in enumerate(recs):
+        out += _comment(r) + f"{rn} = record{r.choice(['', '', ' +cpp +java', ' +cpp'])} {{\n"
+        for w in r.sample(_WORDS, r.choice([1, 2, 4])):
+            out += _comment(r, "    ") + f"    {w}: {ty(refs=data + recs[:i])};\n"
+        out += "}" + r.choice(["", "", " deriving (eq)", " deriving(eq)"]) + "\n"
+    out += _comment(r) + f"ordered = record {{ major: i32; minor: {r.choice(['i64', 'string', 'f64'])}; }} deriving (eq, ord)\n"
+    out += _comment(r) + (f"{fn_name} = {r.choice(['', 'function +cpp '])}(a: {ty(refs=data)}, b: i32) "
+                          f"{r.choice(['', f'throws {err_name} '])}-> {ty(refs=data)};\n")
+    out += "namespace outer.inner {\n"
+    for j, iname in enumerate(ifs):
+        out += _comment(r, "    ") + f"    {iname} = {'main ' if j == 0 else ''}interface +cpp {{\n"
+        out += _comment(r, "        ") + f"        static create() -> {iname};\n"
+        out += f"        const peek(key: string, cb: (v: {r.choice(_PRIMS)}) -> bool) -> {ty(refs=data + recs)};\n"
+        out += f"        async load(id: i64) throws {err_name} -> {recs[0]};\n"
+        out += "        plain();\n"
+        for w in r.sample(_WORDS, r.choice([1, 2])):
+            out += _comment(r, "        ") + f"        property {w}: {ty(refs=data + recs)};\n"
+        out += "    }\n"
+    out += "    namespace deeper {\n        leaf = record { svc: i32; }\n    }\n}\n"
+    return {ROOT_IDL: out, LIB_IDL: lib, "ext.yaml": "name: ext_thing\nprimitive: record\n"}
+
+
+PUNCT = '"{}();:,<>=#@?+-.'
+STRAY = ['"', "'", "`", "$", "\\", "\x00", "\x7f", "\x1b", "é", "€", "\u202e", "\ufeff", "\t", "\r", "\x0c", "}", ")", ">", "{", "(", "<", "*", "%",
+         "!", "/", "|", "~", "^", "&", "[", "]", ";", ":", ",", "=", "#", "@", "?", "+", "-", "."]
+BAD_BYTES = [b"\xff", b"\xfe\xff", b"\xc3\x28", b"\x80", b"\xe2\x82", b"\xf0\x9f\x98", b"\xed\xa0\x80", b"\xc0\xaf"]
+ODD_PATHS = ["a" * 255 + ".djinni", "a" * 300, "a" * 5000 + ".djinni", "d/" * 200 + "x.djinni", "d/" * 3000 + "x.djinni", "x" * 255, "", ".", "..", "/", "out",
+             LIB_IDL + "/", LIB_IDL + "/x", "nul\x00byte.djinni", "new\nline.djinni", "./././" + LIB_IDL, ROOT_IDL, "~/x.djinni", "é€.djinni", "%41.djinni",
+             "a\\b.djinni", " " + LIB_IDL, LIB_IDL + " ", LIB_IDL.upper(), "/dev/null", "ext.yaml", "nothere/" + LIB_IDL, "../" + LIB_IDL]
+MUTATIONS = ["c06", "c06", "tok-delete", "tok-delete", "char-delete", "unquote", "stray", "truncate", "bytes", "long", "path"]
+
+
+def sig_tokens(text: str):
+    """(tokens, indices of those that are not white space)"""
+    from props import c06
+    toks = c06.tokens_of(text)
+    return toks, [i for i, t in enumerate(toks) if t.strip()]
+
+
+def mutate_text(r: random.Random, text: str, kind: str | None = None, at: int | None = None):
+    """one mutation of an IDL text -> (text | bytes, kind); `at` addresses the k-th site of the systematic kinds"""
+    from props import c06
+    kind = kind or r.choice(MUTATIONS)
+    if kind == "c06":
+        t, k = c06.mutate(r, text)
+        return t, "c06-" + k
+    if kind == "tok-delete":
+        toks, sig = sig_tokens(text)
+        if not sig:
+            return text, "none"
+        del toks[sig[at % len(sig)] if at is not None else r.choice(sig)]
+        return "".join(toks), kind
+    if kind in ("char-delete", "unquote"):
+        pos = [i for i, c in enumerate(text) if c in (PUNCT if kind == "char-delete" else '"')]
+        if not pos:
+            return text, "none"
+        i = pos[at % len(pos)] if at is not None else r.choice(pos)
+        return text[:i] + text[i + 1:], kind
+    if kind == "stray":
+        i = r.randrange(len(text) + 1)
+        return text[:i] + r.choice(STRAY) + text[i:], kind
+    if kind == "truncate":
+        return text[:r.randrange(len(text) + 1)], kind
+    if kind == "bytes":
+        raw = text.encode()
+        i = r.randrange(len(raw) + 1)
+        return raw[:i] + r.choice(BAD_BYTES) + raw[i:], kind
+    if kind == "long":
+        toks = c06.tokens_of(text)
+        n = r.choice([300, 1000, 5000, 20000])
+        filler = r.choice(["a" * n, "a." * (n // 2), " " * n, "#" + "c" * n, "\n" * n, "ab " * (n // 3), "<" * min(n, 300), "(" * min(n, 300), "{" * min(n, 300)])
+        toks.insert(r.randrange(len(toks) + 1), filler)
+        return "".join(toks), kind
+    if kind == "path":
+        import re
+        ms = list(re.finditer(r'"[^"\n]*"', text))
+        path = ODD_PATHS[at % len(ODD_PATHS)] if at is not None else r.choice(ODD_PATHS)
+        if not ms:
+            return f'@import "{path}"\n' + text, kind
+        m = ms[0] if at is not None else r.choice(ms)
+        return text[:m.start()] + '"' + path + '"' + text[m.end():], kind
+    raise ValueError(kind)
+
+
+def broken_idl(r: random.Random, base: dict | None = None, kind: str | None = None, at: int | None = None, where: str | None = None) -> dict:
+    """{'files': {name: text | {'bytes_hex'}}, 'mut': kind(s), 'where': mutated file}"""
+    files = dict(base if base is not None else rich_program(r))
+    where = where or (LIB_IDL if r.random() < 0.25 else ROOT_IDL)
+    t, k = mutate_text(r, files[where], kind, at)
+    if isinstance(t, str) and at is None and r.random() < 0.25:
+        t, k2 = mutate_text(r, t)
+        k += "+" + k2
+    files[where] = t if isinstance(t, str) else {"bytes_hex": t.hex()}
+    return {"files": files, "mut": k, "where": where}
+
+
+def idl_stream(ctx) -> list[dict]:
+    out = []
+    # systematic part: one base program; every single-token deletion, every lost quote, every odd path — in the root and in the imported file
+    base = rich_program(random.Random(f"{ctx.seed}/c19/idl/base"))
+    out.append({"files": dict(base), "mut": "none", "where": ROOT_IDL})
+    for where in (ROOT_IDL, LIB_IDL):
+        _, sig = sig_tokens(base[where])
+        sites = [("tok-delete", len(sig)), ("unquote", base[where].count('"')), ("path", len(ODD_PATHS))]
+        for kind, n in sites:
+            ks = range(n)
+            if where == LIB_IDL and kind == "path" and ctx.quick:
+                ks = range(ctx.seed % 4, n, 4)
+            for k in ks:
+                out.append(broken_idl(random.Random(f"{ctx.seed}/c19/idl/{where}/{kind}/{k}"), base=base, kind=kind, at=k, where=where))
+    # the root "file" is a directory / the imported one is
+    out.append({"files": {**base, ROOT_IDL: {"dir": True}}, "mut": "root-is-directory", "where": ROOT_IDL})
+    out.append({"files": {**base, LIB_IDL: {"dir": True}}, "mut": "import-is-directory", "where": LIB_IDL})
+    # random part: fresh programs, all mutation kinds, double mutations
+    for i in range(ctx.n(500, 6000)):
+        out.append(broken_idl(random.Random(f"{ctx.seed}/c19/idl/r/{i}")))
+    return out
+
+
+def write_files(d: Path, files: dict):
+    for name, v in files.items():
+        p = d / name
+        if isinstance(v, str):
+            p.write_text(v, newline="")
+        elif v.get("dir"):
+            p.mkdir()
+        else:
+            p.write_bytes(bytes.fromhex(v["bytes_hex"]))
+
+
+class WatchFront:
+    """observe the steps of `Parser.parse` of the root file: the errors recorded before the visitor runs, how the visitor ends,
+    the errors recorded when it ends (context manager; `.rec` = [] when no visitor ran)"""
+
+    def __enter__(self):
+        from pydjinni.parser.parser import Parser
+        self.cls, self.orig, self.rec = Parser, Parser.visit, []
+        orig, rec = self.orig, self.rec
+
+        def codes(p):
+            return [c if isinstance(c, int) and c > 0 else 1 for c in (getattr(e, "code", None) for e in p.errors)]
+
+        def visit(parser, tree):
+            depth = parser.__dict__.get("_c19_depth", 0)
+            me = None
+            if depth == 0:
+                me = {"syntax": codes(parser), "visit": {"kind": "ok"}}
+                rec.append(me)
+            parser.__dict__["_c19_depth"] = depth + 1
+            try:
+                return orig(parser, tree)
+            except BaseException as e:  # noqa
+                if me is not None:
+                    me["visit"] = cfgsys.classify(e)
+                    me["_exc"] = e
+                raise
+            finally:
+                parser.__dict__["_c19_depth"] = depth
+                if me is not None:
+                    me["at_end"] = codes(parser)
+        Parser.visit = visit
+        return self
+
+    def __exit__(self, *a):
+        self.cls.visit = self.orig
+        return False
+
+
+def read_failure(p: Path) -> str | None:
+    """exception class that reading and decoding the root file raises (independent of the implementation)"""
+    if not p.exists():
+        return "FileNotFoundError"
+    if p.is_dir():
+        return "IsADirectoryError"
+    try:
+        p.read_bytes().decode("utf-8")
+    except UnicodeDecodeError:
+        return "UnicodeDecodeError"
+    return None
+
+
+def front_run_of(read: str | None, rec: list, parse: dict, escaped: bool = False) -> dict | None:
+    """the model's `FrontRun` from the observed steps; `later` / `post` (what the phases after the visitor did) are read off the final
+    outcome, unless it is the visitor's own exception that left `parse` (`escaped`): whether that may happen is the model's call"""
+    if read is None and not rec:
+        return None
+    fr = {"read": read, "syntax": [], "visit": {"kind": "ok"}, "visit_errors": [], "later": [], "post": {"kind": "ok"}}
+    if read is not None or not rec:
+        return fr
+    me = rec[0]
+    fr["syntax"] = me["syntax"]
+    fr["visit"] = raised_of(me["visit"])
+    at_end = me.get("at_end", me["syntax"])
+    fr["visit_errors"] = at_end[len(me["syntax"]):]
+    recorded = at_end
+    if escaped or fr["visit"]["kind"] == "app" or (fr["visit"]["kind"] == "crash" and not recorded):
+        return fr
+    if parse["kind"] == "applist":
+        codes = [c if c is not None else 1 for c in parse["codes"]]
+        if codes[:len(recorded)] == recorded:
+            fr["later"] = codes[len(recorded):]
+    elif parse["kind"] in ("app", "crash"):
+        fr["post"] = raised_of(parse)
+    return fr
+
+
+_IDL_CTX = None
+
+
+def parse_case(base: Path, case: dict) -> dict:
+    """level 1: `API().configure(pydjinni.yaml).parse(m.djinni)` in-process on one broken input"""
+    import signal
+    global _IDL_CTX
+    warnings.filterwarnings("ignore")
+    d = base / "idl"
+    shutil.rmtree(d, ignore_errors=True)
+    d.mkdir(parents=True)
+    write_files(d, case["files"])
+    (d / "pydjinni.yaml").write_text(CONFIGS["pydjinni.yaml"]["text"])
+    cwd = os.getcwd()
+    os.chdir(d)
+
+    class Hang(BaseException):
+        pass
+
+    def on_alarm(*_):
+        raise Hang()
+    old = signal.signal(signal.SIGALRM, on_alarm)
+    signal.alarm(30)
+    try:
+        with WatchFront() as w:
+            try:
+                if _IDL_CTX is None:
+                    from pydjinni import API
+                    _IDL_CTX = API().configure(path=Path("pydjinni.yaml"))
+                _IDL_CTX.parse(Path(ROOT_IDL))
+                out = {"kind": "ok"}
+            except Hang:
+                out = {"kind": "hang"}
+            except BaseException as e:  # noqa
+                out = {**cfgsys.classify(e), "pos": cfgsys.first_position(e)}
+        out["front"] = [{k: (v if k != "visit" else raised_of(v)) for k, v in m.items() if k != "_exc"} for m in w.rec[:1]]
+    finally:
+        signal.alarm(0)
+        signal.signal(signal.SIGALRM, old)
+        os.chdir(cwd)
+    out["read"] = read_failure(d / ROOT_IDL)
+    shutil.rmtree(d, ignore_errors=True)
+    return out
+
+
+def outcome_class(o: dict) -> str:
+    if o["kind"] == "applist":
+        cs = o["codes"]
+        return f"list:{cs[0]}" + ("+" + ",".join(str(c) for c in sorted(set(cs[1:]) - {cs[0]})) if len(set(cs)) > 1 else "")
+    if o["kind"] == "app":
+        return f"app:{o['code']}"
+    if o["kind"] == "crash":
+        return f"crash:{o.get('cls')}@{o.get('site')}"
+    return o["kind"]
+
+
+def visit_class(o: dict) -> str:
+    f = o.get("front") or []
+    if not f:
+        return "no-visit"
+    v = f[0]["visit"]
+    return ("syntax" if f[0]["syntax"] else "clean") + ":" + (v["kind"] if v["kind"] != "crash" else "failed:" + str(v.get("cls")))
+
+
+# --------------------------------------------------------------------------------------------
 # running one case: CLI subprocess + in-process API sequence
 # --------------------------------------------------------------------------------------------
 
-def materialise(ws: Path):
+def materialise(ws: Path, files: dict | None = None):
     ws.mkdir(parents=True)
     for name, (text, _) in IDLS.items():
         (ws / name).write_text(text)
+    write_files(ws, files or {})
     for name, spec in CONFIGS.items():
         cfgsys.write_file(ws, {"name": name, **spec})
     for g in GEN.values():
@@ -263,8 +614,23 @@ def tree_of(ws: Path) -> dict:
     if base.exists():
         for p in sorted(base.rglob("*")):
             if p.is_file():
-                out[str(p.relative_to(ws))] = hashlib.sha256(p.read_bytes()).hexdigest()[:16]
+                # generated files and the report name imported files by absolute path: compare modulo the workspace directory
+                out[str(p.relative_to(ws))] = hashlib.sha256(p.read_bytes().replace(str(ws).encode(), b"<ws>")).hexdigest()[:16]
     return out
+
+
+def report_of(ws: Path):
+    rep = ws / "out" / "report.json"
+    return json.loads(rep.read_text().replace(str(ws), "<ws>")) if rep.exists() else None
+
+
+def first_error_text(out: str) -> str:
+    """the first `ERROR` record of the log output, white space removed (rich wraps long lines anywhere)"""
+    import re
+    ms = [m.start() for m in re.finditer(r"(?m)^ERROR\s", out)]
+    if not ms:
+        return ""
+    return "".join(out[ms[0]:ms[1] if len(ms) > 1 else len(out)].split())[:3000]
 
 
 def run_case(base: Path, case: dict) -> dict:
@@ -273,8 +639,8 @@ def run_case(base: Path, case: dict) -> dict:
     ws = base / "ws"
     shutil.rmtree(ws, ignore_errors=True)
     cli, api = ws / "cli", ws / "api"
-    materialise(cli)
-    materialise(api)
+    materialise(cli, case.get("files"))
+    materialise(api, case.get("files"))
     env = dict(case["child_env"])
     for k in [k for k in env if k.lower().startswith(cfgsys.ENV_PREFIX)]:
         del env[k]
@@ -283,12 +649,11 @@ def run_case(base: Path, case: dict) -> dict:
     try:
         p = subprocess.run([PY, "-m", "pydjinni", *case["args"]], cwd=cli, env=env, capture_output=True, text=True, timeout=120)
         obs = {"rc": p.returncode, "traceback": "Traceback (most recent call last)" in p.stderr or "Traceback (most recent call last)" in p.stdout,
-               "stderr": p.stderr[-600:], "stdout": p.stdout[-2500:]}
+               "stderr": p.stderr[-600:], "stdout": p.stdout[-2500:], "first_error": first_error_text(p.stdout + p.stderr)}
     except subprocess.TimeoutExpired:
-        obs = {"rc": None, "traceback": False, "stderr": "timeout", "stdout": ""}
+        obs = {"rc": None, "traceback": False, "stderr": "timeout", "stdout": "", "first_error": ""}
     obs["tree"] = tree_of(cli)
-    rep = cli / "out" / "report.json"
-    obs["report"] = json.loads(rep.read_text()) if rep.exists() else None
+    obs["report"] = report_of(cli)
 
     # the documented equivalent API sequence
     a = {"stages": []}
@@ -313,7 +678,7 @@ def run_case(base: Path, case: dict) -> dict:
                     a["stages"].append({"stage": name, "kind": "ok"})
                     return r
                 except BaseException as e:  # noqa
-                    a["stages"].append({"stage": name, **cfgsys.classify(e)})
+                    a["stages"].append({"stage": name, **cfgsys.classify(e), "pos": cfgsys.first_position(e)})
                     raise
 
             try:
@@ -321,7 +686,17 @@ def run_case(base: Path, case: dict) -> dict:
                 path = None if cfgname in ("None", "none", "False", "false") else Path(cfgname)
                 c = stage("configure", lambda: API().configure(path=path, options=copy.deepcopy(sem["opt_dict"])))
                 if reach_parse:
-                    g = stage("parse", lambda: c.parse(Path(sem["idl"])))
+                    a["read"] = read_failure(Path(sem["idl"]))
+                    with WatchFront() as watch:
+                        try:
+                            g = stage("parse", lambda: c.parse(Path(sem["idl"])))
+                        except BaseException as e:  # noqa
+                            # did the visitor's own exception leave `parse` (as opposed to one of a later phase)?
+                            a["visit_escaped"] = bool(watch.rec) and watch.rec[0].get("_exc") is e
+                            raise
+                        finally:
+                            a["front"] = [{k: v for k, v in m_.items() if k != "_exc"} for m_ in watch.rec[:1]]
+                    a["kinds"] = sorted({KIND_OF[type(d).__name__] for d in g.defs if type(d).__name__ in KIND_OF})
                     if sem.get("debug"):
                         # `--log-level debug`: the generate callback pretty-prints the AST, which evaluates the marshalling
                         from rich.pretty import pretty_repr
@@ -340,8 +715,7 @@ def run_case(base: Path, case: dict) -> dict:
             os.environ.clear()
             os.environ.update(saved)
         a["tree"] = tree_of(api)
-        rp = api / "out" / "report.json"
-        a["report"] = json.loads(rp.read_text()) if rp.exists() else None
+        a["report"] = report_of(api)
     obs["api"] = a
     shutil.rmtree(ws, ignore_errors=True)
     return obs
@@ -397,6 +771,14 @@ def raised_of(st: dict) -> dict:
     return {"kind": "ok"}
 
 
+def kinds_of(case: dict, obs: dict) -> list:
+    """declaration kinds of the IDL: known for the fixed files, read off the API's AST for generated ones"""
+    idl = case["sem"]["idl"]
+    if case.get("files") and idl in case["files"]:
+        return obs["api"].get("kinds") or []
+    return IDLS.get(idl, ("", []))[1]
+
+
 def model_request(case: dict, obs: dict) -> dict:
     sem = case["sem"]
     cfg = sem["config"]
@@ -416,20 +798,28 @@ def model_request(case: dict, obs: dict) -> dict:
     idl = sem["idl"]
     world = {"valid": conf is not None and conf["kind"] == "ok",
              "front": raised_of(parse) if parse is not None else {"kind": "ok"},
-             "kinds": IDLS.get(idl, ("", []))[1],
+             "kinds": kinds_of(case, obs),
              "gen_fail": gen_fail, "report": bool(obs["api"].get("report")),
              "env": cfgsys.decode_env(case.get("env")), "dotenv": []}
     if "astdump" in stages:
         world["ast_dump"] = raised_of(stages["astdump"])
+    if parse is not None:
+        # the front end's verdict is computed by the model (`frontOf`) from the observed steps of `Parser.parse`
+        fr = front_run_of(obs["api"].get("read"), obs["api"].get("front") or [], parse, bool(obs["api"].get("visit_escaped")))
+        if fr is not None:
+            world["front_run"] = fr
     return {"op": "c19.run", "top_ok": sem["top_ok"], "options": sem["options"], "config": c17.classify_file(fspec),
             "command": sem["command"], "world": world, "debug": bool(sem.get("debug"))}
 
 
 def run(ctx):
-    ctx.coverage["rule"] = ("distinct = distinct command line (IDL x config x -o list x targets x --clean x malformation); "
-                            "non-trivial = anything but the plain successful `generate ok.djinni cpp`")
+    ctx.coverage["rule"] = ("distinct = distinct command line (IDL x config x -o list x targets x --clean x malformation), and for the broken-IDL "
+                            "stream through the in-process API distinct (mutation kind, mutated file, outcome class, visitor class); "
+                            "non-trivial = anything but the plain successful `generate ok.djinni cpp` / an input that is still accepted")
     ctx.assumptions += [
-        "front-end verdict on the IDL and generator failures are taken from the in-process API run of the same workspace (parameters of the model)",
+        "generator failures and the errors recorded by the front end's phases after the visitor are taken from the in-process API run of the same workspace (parameters of the model)",
+        "files that exist are readable (no permission or I/O errors; the checks run as root)",
+        "ANTLR's error recovery is not modelled: which errors the listeners record and how the visitor ends on the recovered tree are observed",
         "package/publish sub-commands are outside this property's quantifier (C20)",
     ]
     ok, out = common.lean_check_file(translate(), "C19_tables")
@@ -443,11 +833,16 @@ def run(ctx):
         for i, c in enumerate(extra):
             c["label"] = f"corpus/{i}"
         cases = extra + cases
+    cases += broken_idl_cases(ctx)
     child_env = ctx.child_env()
     for c in cases:
         c["child_env"] = child_env
     cfgsys.register("cli", run_case)
+    import time
+    t0 = time.time()
     results = cfgsys.run_pool(ctx.tmp, [("cli", c) for c in cases], workers=14)
+    ctx.stats["cli_seconds"] = round(time.time() - t0, 1)
+    ctx.stats["cli_invocations"] = len(cases)
     for r_ in results:
         if r_.get("kind") == "harness-error":
             raise RuntimeError(f"harness error: {r_}")
@@ -472,6 +867,57 @@ def run(ctx):
         ctx.stats["correspondence_first"] = breaks[0]["what"]
 
 
+def broken_idl_cases(ctx) -> list[dict]:
+    """level 1: every input of the stream through the in-process API; level 2 (returned): the command lines for a stratified
+    selection — every internal error class, then one input per (mutation kind, file, outcome class, visitor class) in rotation"""
+    stream = idl_stream(ctx)
+    cfgsys.register("idl", parse_case)
+    import time
+    t0 = time.time()
+    res = cfgsys.run_pool(ctx.tmp, [("idl", c) for c in stream], workers=14)
+    ctx.stats["idl_stream_seconds"] = round(time.time() - t0, 1)
+    for r_ in res:
+        if r_.get("kind") == "harness-error":
+            raise RuntimeError(f"harness error: {r_}")
+    if res[0]["kind"] != "ok":
+        raise RuntimeError(f"the unmutated base program is not accepted: {res[0]}")
+    groups: dict = {}
+    for i, (c, o) in enumerate(zip(stream, res)):
+        oc, vc = outcome_class(o), visit_class(o)
+        ctx.stat("idl_api_" + oc.split("@")[0])
+        ctx.stat("idl_visit_" + vc)
+        ctx.count(key=("idl", c["mut"].split("+")[0], c["where"], oc, vc), nontrivial=o["kind"] != "ok",
+                  sample={"mutation": c["mut"], "file": c["where"], "api": oc, "visitor": vc})
+        urgent = o["kind"] in ("crash", "hang") or (o["kind"] == "applist" and not o["codes"]) or vc.endswith("no-visit") and o["kind"] == "ok"
+        # inputs that are still accepted are the expensive ones (full generation) and the least interesting here: one class per file
+        groups.setdefault((0 if urgent else 1, c["mut"].split("+")[0] if o["kind"] != "ok" else "any", c["where"], oc, vc), []).append(i)
+    ctx.stats["idl_stream_inputs"] = len(stream)
+    ctx.stats["idl_stream_classes"] = len(groups)
+    budget = ctx.n(60, 900)
+    keys = sorted(groups)
+    # every internal-error class first (up to three witnesses each), then the other classes in rotation
+    chosen = [i for k in keys if k[0] == 0 for i in groups[k][:3]]
+    depth = 0
+    rest = [k for k in keys if k[0] == 1]
+    random.Random(f"{ctx.seed}/c19/idl/select").shuffle(rest)
+    while len(chosen) < budget and any(len(groups[k]) > depth for k in rest):
+        for k in rest:
+            if len(groups[k]) > depth and len(chosen) < budget:
+                chosen.append(groups[k][depth])
+        depth += 1
+    out = []
+    target_lists = [["cpp"], ["cpp", "java"], ["yaml"], ["java", "cpp"]]
+    for i in sorted(set(chosen)):
+        c, o = stream[i], res[i]
+        r = random.Random(f"{ctx.seed}/c19/idl/cli/{i}")
+        case = make_case(ROOT_IDL, None, OPTION_SETS[0], r.choice(target_lists), r.random() < 0.3)
+        case["files"] = c["files"]
+        case["label"] = f"idl/{i}/{c['mut']}@{c['where']}"
+        case["level1"] = {"kind": o["kind"], "class": outcome_class(o), "visitor": visit_class(o)}
+        out.append(case)
+    return out
+
+
 def click_refuses(sem) -> bool:
     """is the command line malformed at the click level (by construction of the case)?"""
     cmd = sem["command"]
@@ -489,8 +935,9 @@ def spec_request(case, obs) -> dict:
     if malformed_opts:
         first = {"kind": "app", "code": 141}
     usage = click_refuses(sem)
+    first_st = next((x for x in obs["api"]["stages"] if x["kind"] != "ok"), None)
     return {"op": "c19.spec", "usage": usage, "first": first, "code": obs["rc"] if obs["rc"] is not None and obs["rc"] >= 0 else 999,
-            "traceback": obs["traceback"]}
+            "traceback": obs["traceback"], "first_pos": first_st.get("pos") if first_st and not malformed_opts else None}
 
 
 def brief(o):
@@ -500,6 +947,8 @@ def brief(o):
 def traceback_shape(case, obs) -> str:
     sem = case["sem"]
     text = obs["stderr"]
+    if any(x["stage"] == "parse" and x["kind"] == "crash" for x in obs["api"]["stages"]):
+        return "front-end"
     if sem["config"] == "intkey.yaml":
         return "non-string-key"
     if "has no attribute 'cpp'" in text:
@@ -545,7 +994,7 @@ def evaluate(ctx, case, obs, m, sq, s, breaks):
             want = set()
             for t in gen_m:
                 want |= set(c17.live_targets_cached().get(t, []))
-            if not keys <= want or (keys != want and IDLS.get(sem['idl'], ('', []))[1]):
+            if not keys <= want or (keys != want and kinds_of(case, obs)):
                 breaks.append({"what": "c19.run generated events vs report sections", "args": case["args"], "model": sorted(want), "impl": sorted(keys)})
     # model API stages vs in-process API outcome
     pure = [x for x in obs["api"]["stages"] if x["stage"] != "astdump"]
@@ -556,6 +1005,16 @@ def evaluate(ctx, case, obs, m, sq, s, breaks):
                                                          and fm.get("code") == first_impl.get("code") and fm.get("codes") == first_impl.get("codes"))
         if not same:
             breaks.append({"what": "apiStages first exception vs in-process API sequence", "args": case["args"], "model": fm, "impl": obs["api"]["stages"]})
+    # the front end's verdict: `frontOf` on the observed steps of `Parser.parse` vs what `parse` raised
+    parse_st = next((x for x in obs["api"]["stages"] if x["stage"] == "parse"), None)
+    fr = front_run_of(obs["api"].get("read"), obs["api"].get("front") or [], parse_st, bool(obs["api"].get("visit_escaped"))) if parse_st is not None else None
+    ready_ok = len(m["stages"]) > 5 and m["stages"][5]["kind"] == "ok"   # `parse` checks the readiness of the configured targets before it reads the file
+    if fr is not None and ready_ok:
+        fm, fi = m["front"], raised_of(parse_st)
+        ctx.stat("front_" + ("read-fails" if fr["read"] else ("recorded" if fr["syntax"] or fr["visit_errors"] else "clean") + ":visit-" + fr["visit"]["kind"]))
+        if (fm["kind"], fm.get("code"), fm.get("codes"), fm.get("cls")) != (fi["kind"], fi.get("code"), fi.get("codes"), fi.get("cls")):
+            breaks.append({"what": "frontOf (steps of Parser.parse) vs the exception `parse` raised", "args": case["args"], "label": case.get("label"),
+                           "model": fm, "impl": parse_st, "front_run": fr})
     # ---- specification ---------------------------------------------------------------------------------------
     if obs["traceback"] or obs["rc"] == 1:
         ctx.report("cli:traceback-" + traceback_shape(case, obs), f"the command line ended in a Python traceback (exit status {obs['rc']})",
@@ -576,7 +1035,13 @@ def evaluate(ctx, case, obs, m, sq, s, breaks):
         if sem["command"]["kind"] == "generate" and any(k for k in obs["tree"] if not k.endswith("stale.txt")):
             ctx.report("cli:malformed-command-line-wrote-files", "a refused command line wrote output files", {**rep, "impl": brief(obs), "files": list(obs["tree"])[:10]})
         return
-    if obs["rc"] in (150, 161, 170):
+    if sq.get("first_pos") and obs["rc"] not in (0, None):
+        # the first reported error carries a position: the first message has to name that file and that (line, column)
+        fname, line, col = sq["first_pos"]
+        if fname not in obs["first_error"] or f"at({line},{col})" not in obs["first_error"]:
+            ctx.report("cli:diagnostic-names-other-position", f"the first message does not name file '{fname}' and position ({line}, {col}) of the first reported error",
+                       {**rep, "impl": brief(obs), "first_message": obs["first_error"][:600], "first_pos": sq["first_pos"]})
+    elif obs["rc"] in (150, 161, 170):
         import re as _re
         text = obs["stdout"] + obs["stderr"]
         if sem["idl"] not in text or not _re.search(r"at \(\d+, \d+\)", text):
